@@ -83,21 +83,63 @@ def pymtl_trace(design, seq):
     s.close()
 
 
-def run_sv(text, topmod, design, seq, trace, strict):
+def flat_leaves(design, port):
+  """[(flattened port name, lo, hi)] of a top-level port under the Yosys backend's naming convention (path segments
+  joined by '__', a list index i rendered as '__i'); a Bits port maps to itself"""
+  from vf.gen import structs as S
+  top_c = design["classes"][design["top"]]
+  t = [t for n, d, t in top_c["ports"] if n == port]
+  if not t: return [(port, 0, 1)]                      # reset/clk
+  t = t[0]
+  if t[0] == "b": return [(port, 0, t[1])]
+  pos, tot = S.positions(t)
+  return [(port + "".join("__" + str(x) for x in path), lo, hi) for path, (lo, hi) in pos.items()]
+
+
+def run_sv(text, topmod, design, seq, trace, strict, flat=False):
   from vf.sv import parse_design
   d = parse_design(text)
   sim = d.simulate(topmod, strict_lrm_index_sign=strict)
+
+  def setp(p, v):
+    if not flat: sim.set(p, v); return
+    for name, lo, hi in flat_leaves(design, p):
+      sim.set(name, (v >> lo) & ((1 << (hi - lo)) - 1))
+
+  def getp(p):
+    if not flat: return sim.get(p)
+    v = 0
+    for name, lo, hi in flat_leaves(design, p):
+      v |= (sim.get(name) & ((1 << (hi - lo)) - 1)) << lo
+    return v
   for t, cyc in enumerate(seq):
-    for p, v in cyc["in"].items(): sim.set(p, v)
+    for p, v in cyc["in"].items(): setp(p, v)
     sim.set("reset", cyc.get("reset", 0))
     sim.eval()
     for o, v in trace[t][0].items():
-      g = sim.get(o)
+      g = getp(o)
       if g != v: return f"cycle {t} after eval: {o} = {g}, PyMTL {v}"
     sim.tick()
     for o, v in trace[t][1].items():
-      g = sim.get(o)
+      g = getp(o)
       if g != v: return f"cycle {t} after tick: {o} = {g}, PyMTL {v}"
+  return None
+
+
+def check_flat_ports(d, topmod, design):
+  """the module header's port set must be exactly the flattened leaves of the PyMTL ports (plus clk/reset)"""
+  top_c = design["classes"][design["top"]]
+  expect = {"clk": ("input", 1), "reset": ("input", 1)}
+  for n, dr, t in top_c["ports"]:
+    for name, lo, hi in flat_leaves(design, n):
+      expect[name] = ("input" if dr == "in" else "output", hi - lo)
+  got = {}
+  for p in d.modules[topmod].ports:
+    got[p[0]] = (p[1], p[2])
+  if set(got) != set(expect):
+    return f"missing {sorted(set(expect) - set(got))[:4]} unexpected {sorted(set(got) - set(expect))[:4]}"
+  for k in expect:
+    if tuple(got[k]) != expect[k]: return f"port {k}: {got[k]} vs {expect[k]}"
   return None
 
 
@@ -123,12 +165,16 @@ def judge_backend(case, which, stats=None):
   if sp: return (f"{which}:structural:{_kind(sp[0])}", "; ".join(sp[:3])[:400])
   dp = d.driver_problems(topmod)
   if dp: return (f"{which}:drivers:{_kind(dp[0])}", "; ".join(dp[:3])[:400])
+  flat = which == "yosys"
+  if flat:
+    pm = check_flat_ports(d, topmod, design)
+    if pm: return (f"{which}:flat_port_map", pm)
   trace, v = pymtl_trace(design, seq)
   if v is not None: return v
   try:
-    m1 = run_sv(text, topmod, design, seq, trace, False)
+    m1 = run_sv(text, topmod, design, seq, trace, False, flat)
     if m1 is not None:
-      m2 = run_sv(text, topmod, design, seq, trace, True)
+      m2 = run_sv(text, topmod, design, seq, trace, True, flat)
       if m2 is not None:
         return (f"{which}:value_mismatch", m1)
       if stats is not None: stats["reading_dependent"] = True
@@ -141,8 +187,12 @@ def judge_backend(case, which, stats=None):
 
 
 def _kind(msg):
+  """problem class without module / signal names"""
+  for k in ("multiple drivers", "no driver", "member access", "instance name", "not declared", "undeclared",
+            "declared twice", "duplicate", "reserved", "defined twice", "not defined", "input port"):
+    if k in msg: return k.replace(" ", "_")
   import re
-  m = re.sub(r"[^a-zA-Z ]", "", msg).split()
+  m = re.sub(r"[^a-zA-Z ]", "", msg.split(":", 1)[-1]).split()
   return "_".join(m[:4]).lower()[:40]
 
 
